@@ -214,6 +214,11 @@ func TestVerifC09Child(t *testing.T) {
 			vc09Say("ERR write %d %s: %v", i, w.String(), err)
 			os.Exit(4)
 		}
+		// acknowledge first (nothing may delay the ACK: a write is acknowledged
+		// when the API call returns), then lower the snapshot threshold of the
+		// fragments for the writes to come
+		ack, _ := json.Marshal(vc09AckIDs(n, w))
+		vc09Say("ACK %d %s", i, ack)
 		if h.Schema.MaxOpN > 0 {
 			for _, f := range vc09AllFragments(n.Server.holder) {
 				f.mu.Lock()
@@ -221,8 +226,6 @@ func TestVerifC09Child(t *testing.T) {
 				f.mu.Unlock()
 			}
 		}
-		ack, _ := json.Marshal(vc09AckIDs(n, w))
-		vc09Say("ACK %d %s", i, ack)
 	}
 	// let queued snapshots finish so that no file operation is cut by the exit
 	for _, f := range vc09AllFragments(n.Server.holder) {
